@@ -190,7 +190,8 @@ def check_case(case):
 def describe(tier):
     return {
         "alphabet": "file = (name, type 0-3, data type 00/FF, load, exec, length, content pattern); lengths {}; patterns {}; names {}; "
-                    "addresses {}; 14-symbol file alphabet for lists; read side: leaders {} x {} , gaps none/0/1/128, chunk sizes".format(
+                    "addresses {}; files carrying a gap flag 00/FF/01; 14-symbol file alphabet for lists; add/list interleavings (4 patterns) on ONE "
+                    "container object over all 3-file lists of a 6-file alphabet; read side: leaders {} x {} , gaps none/0/1/128, chunk sizes".format(
                         "0..65535" if tier == "thorough" else LEN_BOUNDARY + ["3..39", 1275, 4000, 10000], PATS, NAMES,
                         "0..65535 each" if tier == "thorough" else ADDRS, "8 lengths", "8 lengths"),
         "bound": "single files over the full parameter sweeps; all lists of length <= 2 over 14 files, length 3 over " +
